@@ -37,6 +37,8 @@ DevSort == Dev = "SortInPlace"
 DevConvert == Dev = "ConvertInPlace"
 DevHide == Dev = "HideRestore"
 DevEarly == Dev = "EarlyExitWalk"
+DevLast == Dev = "LastKeyDecides"
+DevMemoRoot == Dev = "MemoRootUnsync"
 DevNoMutex == Dev = "NoStepMutex"
 DevEnum == Dev = "EnumEarlyReturn"
 
@@ -55,6 +57,8 @@ DevKinds ==
       [] Dev = "ConvertInPlace" -> {"anylist"}
       [] Dev = "HideRestore" -> {"oneof"}
       [] Dev = "EarlyExitWalk" -> {"objreq"}
+      [] Dev = "LastKeyDecides" -> {"enum"}
+      [] Dev = "MemoRootUnsync" -> {"objmap", "steps"}
       [] Dev = "NoStepMutex" -> {"steps"}
       [] Dev = "EnumEarlyReturn" -> {"enum"}
       [] OTHER -> {}
